@@ -138,7 +138,6 @@ pub const NEIGHBOUR_SCORES: [(f64, &str); 2] = [(1.0000000000000002, "1.00000000
 pub fn score_is_plain(v: f64) -> bool {
     if v.is_infinite() { return true; }
     if NEIGHBOUR_SCORES.iter().any(|(x, _)| *x == v) { return true; }
-    if v == 0.0 && v.is_sign_negative() { return false; }
     let a = v.abs();
     if a >= 1e15 { return false; }
     if a.fract() == 0.0 { return true; }
@@ -148,6 +147,8 @@ pub fn score_is_plain(v: f64) -> bool {
 pub fn score_text(v: f64) -> B {
     if let Some((_, t)) = NEIGHBOUR_SCORES.iter().find(|(x, _)| *x == v) { return t.as_bytes().to_vec(); }
     if v.is_infinite() { return if v > 0.0 { b"inf".to_vec() } else { b"-inf".to_vec() }; }
+    // negative zero keeps its sign in the text ("%.17g" and shortest round-trip alike) and ties with zero in the order
+    if v == 0.0 { return if v.is_sign_negative() { b"-0".to_vec() } else { b"0".to_vec() }; }
     if v.fract() == 0.0 { return format!("{}", v as i64).into_bytes(); }
     // multiples of 1/64: exact decimal expansion with <= 6 fraction digits
     let n = (v * 64.0) as i64; // exact
